@@ -438,12 +438,13 @@ class Check:
         return exit_code
 
 
-NF_TIMEOUT = [int(os.environ.get("PYVC_NF_TIMEOUT", "90"))]
+NF_TIMEOUT = [int(os.environ.get("PYVC_NF_TIMEOUT", "240"))]   # CPU seconds per obligation
 NF_BUDGET = [int(os.environ.get("PYVC_NF_BUDGET", "1200"))]
 
 
 class time_limit:
-    """SIGALRM based wall-clock limit (main thread only)."""
+    """CPU-time limit of this process (ITIMER_PROF, main thread only): independent of the load on the other cores, so a verdict
+    does not flip to 'undischarged' because 16 checks run side by side."""
 
     def __init__(self, secs):
         self.secs = secs
@@ -454,14 +455,14 @@ class time_limit:
         def handler(signum, frame):
             raise TimeoutError()
 
-        self.old = signal.signal(signal.SIGALRM, handler)
-        signal.setitimer(signal.ITIMER_REAL, self.secs)
+        self.old = signal.signal(signal.SIGPROF, handler)
+        signal.setitimer(signal.ITIMER_PROF, self.secs)
 
     def __exit__(self, *a):
         import signal
 
-        signal.setitimer(signal.ITIMER_REAL, 0)
-        signal.signal(signal.SIGALRM, self.old)
+        signal.setitimer(signal.ITIMER_PROF, 0)
+        signal.signal(signal.SIGPROF, self.old)
         return False
 
 
